@@ -244,13 +244,16 @@ FirstCeltAt(c, R) == R.celt # <<>> /\ ~R.celt[1].rst => WinLo(c, R.celt[1]) = 0 
 CeltEndsAt(c, fs, R) == IF R.celt = <<>> THEN "none" ELSE
                         IF R.celt[Len(R.celt)].role = "red" /\ Len(R.celt) = 1 THEN "reset"      \* CELT->SILK: reset after (2301)
                         ELSE IF WinHi(c, R.celt[Len(R.celt)]) = fs - TB(c) THEN "live" ELSE "off"
-SliceTheorems(c, filled, fs, d, R) ==
-  /\ InBounds(c, fs, R) /\ DbAfter(c, filled, fs, R) /\ SilkExact(c, filled, fs, R) /\ SilkPrefillShape(c, filled, fs, R)
-  /\ CeltDelayed(c, filled, fs, R) /\ CeltPrefillAbuts(c, filled, fs, d, R) /\ RedWindows(c, filled, fs, d, R)
-  /\ CleanReads(R) /\ CeltChain(c, R) /\ FirstCeltAt(c, R)
-  /\ (CeltEndsAt(c, fs, R) \notin {"none", "reset", "live"} => d.mode # MODE_SILK /\ d.cm = 0 /\ ~(d.red = 1 /\ d.c2s = 0))
-  \* a prefilled SILK slice always takes the whole-buffer copy: the ramp never survives in the delay buffer
-  /\ (d.mode # MODE_CELT /\ d.pf > 0 => ~R.mv)
+SliceFailures(c, filled, fs, d, R) ==
+  LET T == { <<"InBounds", InBounds(c, fs, R)>>, <<"DbAfter", DbAfter(c, filled, fs, R)>>, <<"SilkExact", SilkExact(c, filled, fs, R)>>,
+             <<"SilkPrefillShape", SilkPrefillShape(c, filled, fs, R)>>, <<"CeltDelayed", CeltDelayed(c, filled, fs, R)>>,
+             <<"CeltPrefillAbuts", CeltPrefillAbuts(c, filled, fs, d, R)>>, <<"RedWindows", RedWindows(c, filled, fs, d, R)>>,
+             <<"CleanReads", CleanReads(R)>>, <<"CeltChain", CeltChain(c, R)>>, <<"FirstCeltAt", FirstCeltAt(c, R)>>,
+             <<"CeltEnds", CeltEndsAt(c, fs, R) \notin {"none", "reset", "live"} => d.mode # MODE_SILK /\ d.cm = 0 /\ ~(d.red = 1 /\ d.c2s = 0)>>,
+             \* a prefilled SILK slice always takes the whole-buffer copy: the ramp never survives in the delay buffer
+             <<"RampOverwritten", d.mode # MODE_CELT /\ d.pf > 0 => ~R.mv>> }
+  IN {t[1] : t \in {x \in T : ~x[2]}}
+SliceTheorems(c, filled, fs, d, R) == SliceFailures(c, filled, fs, d, R) = {}
 
 \* the reported look-ahead is the CELT path's input delay plus CELT's own 2.5 ms (and the 5 ms redundant frame is
 \* two of those: what the decoder cross-fades, DecOp!F5 = 2 * DecOp!F2_5 at the decoder's rate)
